@@ -400,3 +400,29 @@ Proof.
     + destruct (has_prefix SharedPersistentPrefixes k); [discriminate|]. destruct (has_prefix SharedPrefixes k); [discriminate|].
       rewrite (Hex _ Hp). discriminate.
 Qed.
+
+(* ---- several nodes WITH cache loss, small scope, repaired code: steps = node 0/1 x {Set v1, Delete, Get}, cold node x {Get}, loss of the key's
+   cache copy on node 0 / on node 1 (their local cache + the shared cache) / everywhere.  Along every history of length <= 4 on two-tier keys:
+   a Get by a cold node, by the latest writer, by a node whose cache copy was lost since the latest write, or through the shared cache tier
+   returns exactly the latest completed write — losing a cache copy never brings an older value back and never loses the value. *)
+Definition mdrop_alphabet (k : kbytes) : list mstep :=
+  flat_map (fun i => [MOp i (OSet k (VStr 1)); MOp i (ODel k); MOp i (OGet k)]) [0; 1] ++ [MOp 2 (OGet k); MDrop 0 k; MDrop 1 k; MDropAll k].
+Fixpoint mdseqs (n : nat) (al : list mstep) : list (list mstep) :=
+  match n with 0 => [[]] | S m => [] :: flat_map (fun o => map (cons o) (mdseqs m al)) al end.
+Fixpoint mdrop_ok (c : cfg) (k : kbytes) (m : mworld) (steps : list mstep) (latest : option value) (f0 f1 : bool) : bool :=
+  match steps with
+  | [] => true
+  | MOp i o :: r =>
+      let '(m', x) := mexec GenTables c m i o in
+      let fresh_i := match i with 0 => f0 | 1 => f1 | _ => true end in
+      let must := fresh_i || tier_eqb (cache_tier_for_key GenTables c k) TShared in
+      let ok := match o with OGet _ => negb must || ores_eqb x (Some (val_res latest)) | _ => true end in
+      let wr := match o with OSet _ _ | ODel _ => true | _ => false end in
+      let latest' := match o with OSet _ v => Some v | ODel _ => None | _ => latest end in
+      ok && mdrop_ok c k m' r latest' (if wr then Nat.eqb i 0 else f0) (if wr then Nat.eqb i 1 else f1)
+  | MDrop i k' :: r => mdrop_ok c k (mdrop m (Some i) k') r latest (f0 || Nat.eqb i 0) (f1 || Nat.eqb i 1)
+  | MDropAll k' :: r => mdrop_ok c k (mdrop m None k') r latest true true
+  end.
+Lemma cross_node_cache_loss_small_scope :
+  forallb (fun ck => forallb (fun h => mdrop_ok (fst ck) (snd ck) m_empty h None true true) (mdseqs 4 (mdrop_alphabet (snd ck)))) all_cases_r = true.
+Proof. vm_compute. reflexivity. Qed.
